@@ -92,6 +92,18 @@ class PositiveScalar(RegionAttribute):
                              'finite scalar')
 
 
+class NumberOfVertices(PositiveScalar):
+    """
+    Descriptor class to check that value is a scalar integer number (an
+    int or an integer-valued float) not smaller than 3.
+    """
+
+    def _validate(self, value):
+        super()._validate(value)
+        if value != int(value) or value < 3:
+            raise ValueError(f'{self.name!r} must be an integer >= 3')
+
+
 class ScalarSkyCoord(RegionAttribute):
     """
     Descriptor class to check that value is a scalar
